@@ -62,7 +62,9 @@ ASSUMPTIONS = [
     "a cache reset (replace request / fresh Schema), stream H; stream L executes every kind of structural plain assignment between two "
     "validate() calls and compares outcome / cache flag with the cache machine (op assignStructure): the stale verdicts it meets for the untracked "
     "kinds are COUNTED in the evidence (`outside_statement_stale_after_structural_setter`, Lean: cache_unsound_unseen_structural_setter, "
-    "cache_sound_all_mutators_fails_today), not reported; for the tracked kinds (argument type / default, number of fields) they are failures",
+    "cache_sound_all_mutators_fails_today), not reported; for the tracked kinds (argument type / default, number of fields) they are failures. "
+    "WITH proposed_fixes/C13-S12.patch (flag cfgCacheTracksStructure re-extracted from `_current_resolvers`) every kind is tracked: the model "
+    "resets the verdict after ANY structural assignment (Lean: cache_sound_all_mutators) and a stale verdict is a failure",
     "resolver identities recorded with the cached verdict stay alive (the fingerprint holds references): stream M drops a resolver, allocates replacements "
     "until one lands on the freed address (evidence `address_reuse_collisions`: 0 everywhere on a tree that keeps references) and requires the fresh verdict",
     "plain assignment of resolvers (`schema.default_resolver = f`, `type.default_resolver = f`, `field.resolver = f`, "
@@ -2837,10 +2839,17 @@ def stream_histories(ctx, batch):
 # ---- L: the remaining public setters (structure edited by plain assignment) and the verdict cache --------------------
 
 STRUCTURAL_KINDS = ["field_type_input", "field_type_benign", "interfaces_object", "union_clear", "input_fields_clear",
-                    "input_field_type_object", "arg_type_object", "arg_default_added", "fields_extra", "type_name_reserved"]
+                    "input_field_type_object", "arg_type_object", "arg_default_added", "fields_extra", "type_name_reserved",
+                    # what proposed_fixes/C13-S12.patch added to the comparison, one kind per group of the fingerprint
+                    "object_name_reserved", "query_type_interface", "enum_values_clear", "arg_name_reserved",
+                    "field_inner_type_input"]
 # kinds that touch what fix C13-HHH3 made part of the cached verdict (the argument objects of a field and their
 # type / default, the number of fields): for these a stale verdict IS a failure of the property
 TRACKED_KINDS = {"arg_type_object", "arg_default_added", "fields_extra"}
+if X.cache_tracks_structure():
+    # fix C13-S12: the cached verdict stands for everything the validator reads: EVERY structural plain assignment must
+    # make validate() recompute (the cache machine asserts it: `assignStructureStep cfgCacheTracksStructure`)
+    TRACKED_KINDS = set(STRUCTURAL_KINDS)
 
 
 def apply_structural_setter(rng, s, kind):
@@ -2895,6 +2904,30 @@ def apply_structural_setter(rng, s, kind):
     elif kind == "type_name_reserved":
         cands = [f for t in objs for f in t.fields]
         rng.choice(cands).name = "__zz"
+    elif kind == "object_name_reserved":
+        rng.choice(objs).name = "__Zz"
+    elif kind == "query_type_interface":
+        ifaces = [t for t in user if isinstance(t, InterfaceType)]
+        if not ifaces:
+            return False
+        s.query_type = rng.choice(ifaces)
+    elif kind == "enum_values_clear":
+        from py_gql.schema import EnumType
+        enums = [t for t in user if isinstance(t, EnumType)]
+        if not enums:
+            return False
+        rng.choice(enums).values = []
+    elif kind == "arg_name_reserved":
+        cands = [a for t in objs for f in t.fields for a in f.arguments]
+        if not cands:
+            return False
+        rng.choice(cands).name = "__zz"
+    elif kind == "field_inner_type_input":
+        from py_gql.schema import ListType, NonNullType
+        cands = [f for t in objs for f in t.fields if isinstance(f.type, (ListType, NonNullType))]
+        if not cands or not inputs:
+            return False
+        rng.choice(cands).type.type = rng.choice(inputs)
     else:
         return False
     return True
